@@ -461,7 +461,7 @@ def check():
             pu = [e for e in p.calls() if e[1] == "Vec::push"]
             loops = [i for i, e in enumerate(p.events) if e[0] == "loop"]
             tail = [e for e in p.events[loops[-1] + 1:] if e[0] == "call"] if loops else []
-            tpu = [e for e in tail if e[1] == "Vec::push"]
+            tpu = [e for e in tail if e[1] in ("Vec::push", "collect::item")]      # loop body, or the item a pipeline collects
             mk = [e for e in tail if e[1].startswith("Builder::prop_")]
             if tpu:
                 okk = len(tpu) == 1 and len(mk) == 1 and any(t == mk[0][3] for t in ms.subterms(tpu[0][2][1]))
